@@ -16,6 +16,8 @@ H.append({"name":"H_cancel","tiers":Q,"scale":"b2","preemptions":0,"bounds":"tar
   "param_sets":grid([2],[512,1024],[0,1,2],[0,1,2])})
 H.append({"name":"H_cancel","tiers":Q,"scale":"b2","preemptions":0,"bounds":"four dir/symlink wounds (more than the scaled channel holds) before the first file, files intact or damaged: all consumers, all cancel modes",
   "param_sets":grid([2],[2048,2048+3],[0,1,2],[0,1,2])})
+H.append({"name":"H_cancel","tiers":Q,"scale":"b2","preemptions":0,"bounds":"files of 3B+1 bytes damaged in every block: the contiguous run exceeds the scaled MaxWoundSize (2B), so the aggregator's size-limit path runs; all consumers, all cancel modes",
+  "param_sets":[dict(p,big=1) for p in grid([2],[1,3],[0,1,2],[0,1,2])]})
 H.append({"name":"H_cancel","tiers":T,"scale":"b2","preemptions":2,"bounds":"2-3 files, all damage patterns, all cancel modes, all consumers; at most 2 preemptions","max_seconds":1700,
   "param_sets":grid([2,3],[0,1,2,3,4,7,256],[0,1,2],[0,1,2])})
 json.dump({"property":"C16","package":"c16","scale":scale,"harnesses":H,
